@@ -167,7 +167,7 @@ func init() {
 func init() {
 	properties["C20"] = Property{
 		Level: "exploration",
-		Rule:  "cases: (a) one add/remove history of 8-23 steps around MaxFacts in 1..6 on ids max+2 wide (facts, rules, overwrites at the boundary), both states, plus rounds of 8-15 concurrent adders (facts only / rules only / mixed; every other round starts one below the maximum); (b) one breaker run: limit 1-20, interval 40-400 ms, 1-16 concurrent callers, arrival patterns burst+slow poll / burst+fast poll (faster than interval/20) / steady / random over 3 intervals, every Zap logged with [before, after] and checked offline for the sliding-window bound and for recovery; (c) one throttle run: 8-63 submitters, pending limit 1-4, Pending() sampled and, independently, the submissions seen waiting at one instant counted by a probe around the throttle's breaker (a submission is certainly waiting between its first and its last attempt); non-trivial = the limit was reached (an add refused / a poll refused / a submission overflowed); distinct by the run's parameters and history; breaker runs also through core.HTTPRequest.Do against a local endpoint with the breaker registered by host or URL (admitted = reached the endpoint, refused = 430); a quarter of the throttle runs disable the breaker, another quarter the throttle (no pending bound judged there); property-shaped adds (`addProp`) in the capacity histories; the breaker behind the throttle is the outbound breaker, a load-probe SimpleBreaker that is over its limit for the first milliseconds, or the ComboBreaker of both",
+		Rule:  "cases: (a) one add/remove history of 8-23 steps around MaxFacts in 1..6 on ids max+2 wide (facts, rules, overwrites at the boundary), both states, plus rounds of 8-15 concurrent adders (facts only / rules only / mixed; every other round starts one below the maximum); (b) one breaker run: limit 1-20, interval 40-400 ms, 1-16 concurrent callers, arrival patterns burst+slow poll / burst+fast poll (faster than interval/20) / steady / random over 3 intervals, every Zap logged with [before, after] and checked offline for the sliding-window bound and for recovery; (c) one throttle run: 8-63 submitters, pending limit 1-4, Pending() sampled and, independently, the submissions seen waiting at one instant counted by a probe around the throttle's breaker (a submission is certainly waiting between its first and its last attempt); non-trivial = the limit was reached (an add refused / a poll refused / a submission overflowed); distinct by the run's parameters and history; breaker runs also through core.HTTPRequest.Do against a local endpoint with the breaker registered by host or URL (admitted = reached the endpoint, refused = 430); a quarter of the throttle runs disable the breaker, another quarter the throttle (no pending bound judged there); property-shaped adds (`addProp`) in the capacity histories; the breaker behind the throttle is the outbound breaker, a load-probe SimpleBreaker that is over its limit for the first milliseconds, or the ComboBreaker of both; plus (batch 0) `groupCapacity`: a System whose maximum is configured per group of locations (LocToGroup, GroupControls)",
 		Floor: [2]int{30, 300},
 		Assumptions: []string{"breaker verdicts use only interval arithmetic on monotonic [before, after] stamps: a rate violation needs limit+1 admissions with max(after)-min(before) < interval; a recovery violation needs a refused poll whose `before` is later than every earlier admission's `after` + interval + 2 ticks", "a starved period in which every gap between consecutive polls is shorter than interval/20 is the open finding c20.breaker-slide-drops-remainder"},
 		Stages: []Stage{
